@@ -24,6 +24,16 @@ Definition bytes := list N.
 Definition id := N.
 
 (** Does [OccupiedEntry::get] rewind the descriptor before decoding? *)
+(** Does [VacantEntry::insert] set [dirty] before the write (so that a failed
+    write is not cleaned up by [Drop])?  Taken from the generated statement
+    order of [insert]: the repaired/original code writes, syncs, and only then
+    sets the flag. *)
+Definition dirty_first : bool :=
+  negb (match ks_fs_vacant_insert_steps with
+        | [w; f; d] => String.eqb w "cbor::into_writer" && String.eqb f "self.fd.fsync" && String.eqb d "self.dirty=true"
+        | _ => false
+        end).
+
 Definition rewinds : bool :=
   match ks_fs_occupied_get with
   | a :: b :: _ => String.eqb a "self.fd.rewind" && String.eqb b "cbor::from_reader"
@@ -38,13 +48,17 @@ Section KeyStore.
   Variable dec : bytes -> option key.
 
   (** * Operations and what a caller observes *)
-  Inductive vact := VInsert (k : key) | VDrop.
+  (** What the caller does with a vacant entry: insert a key, drop the entry,
+      or insert a key whose serialisation / write fails after [partial] bytes
+      reached the file ([insert] returns an error and the entry is dropped). *)
+  Inductive vact := VInsert (k : key) | VDrop | VInsertFail (partial : bytes).
   (** On an occupied entry: [gets] calls of [get], then [remove] or drop. *)
   Record oact := { gets : nat; then_remove : bool }.
   Inductive op :=
   | OEntry (i : id) (v : vact) (o : oact)
   | OGet (i : id)
   | OTryInsert (i : id) (k : key)
+  | OTryInsertFail (i : id) (partial : bytes)     (* [try_insert] with a key whose write fails *)
   | ORemove (i : id)
   | OReopen.
 
@@ -52,6 +66,8 @@ Section KeyStore.
   Inductive kres := KOk (k : key) | KErr.
   Inductive obs :=
   | ObVacant (inserted : bool)
+  | ObVacantFailed                           (* vacant entry, [insert] returned an error *)
+  | ObTryInsertErr                           (* [try_insert] returned an error other than AlreadyExists *)
   | ObOccupied (got : list kres) (removed : option kres)
   | ObGet (r : option (option key))          (* None = Err; Some None = Ok(None) *)
   | ObTryInsert (ok : bool)                  (* false = AlreadyExists *)
@@ -69,6 +85,7 @@ Section KeyStore.
       | None => match v with
                 | VInsert k => (supd m i (Some k), ObVacant true)
                 | VDrop => (m, ObVacant false)
+                | VInsertFail _ => (m, ObVacantFailed)      (* a failed insert is a no-op *)
                 end
       | Some k => if then_remove a
                   then (supd m i None, ObOccupied (repeat (KOk k) (gets a)) (Some (KOk k)))
@@ -78,6 +95,11 @@ Section KeyStore.
     | OTryInsert i k =>
       match m i with
       | None => (supd m i (Some k), ObTryInsert true)
+      | Some _ => (m, ObTryInsert false)
+      end
+    | OTryInsertFail i _ =>
+      match m i with
+      | None => (m, ObTryInsertErr)
       | Some _ => (m, ObTryInsert false)
       end
     | ORemove i => (supd m i None, ObRemove (Some (m i)))
@@ -117,7 +139,7 @@ Section KeyStore.
     end.
 
   (** [Store::entry] followed by the caller's use of the entry. *)
-  Definition fs_entry (rw : bool) (s : fs) (i : id) (v : vact) (a : oact) : fs * obs :=
+  Definition fs_entry (rw df : bool) (s : fs) (i : id) (v : vact) (a : oact) : fs * obs :=
     match lookup (files s) i with
     | Some content =>
       (* Exclusive::openat succeeded: occupied, descriptor at offset 0 *)
@@ -133,6 +155,11 @@ Section KeyStore.
       match v with
       | VInsert k => ({| files := create d1 i (enc k); canary := canary s |}, ObVacant true)
       | VDrop => ({| files := unlink d1 i; canary := canary s |}, ObVacant false)
+      | VInsertFail p =>
+        (* the write put [p] into the file and failed; [insert] returns Err and the entry is
+           dropped: [Drop] unlinks unless [dirty] was already set *)
+        if df then ({| files := create d1 i p; canary := canary s |}, ObVacantFailed)
+        else ({| files := unlink d1 i; canary := canary s |}, ObVacantFailed)
       end
     end.
 
@@ -146,19 +173,24 @@ Section KeyStore.
     | None => if debug && negb (canary s) then ObGet None (* RootDeleted *) else ObGet (Some None)
     end.
 
-  Definition fs_step (rw debug : bool) (s : fs) (o : op) : fs * obs :=
+  Definition fs_step (rw df debug : bool) (s : fs) (o : op) : fs * obs :=
     match o with
-    | OEntry i v a => fs_entry rw s i v a
+    | OEntry i v a => fs_entry rw df s i v a
     | OGet i => (s, fs_get debug s i)
     | OTryInsert i k =>
       (* provided method: entry, then insert on Vacant, AlreadyExists on Occupied (entry dropped) *)
-      match fs_entry rw s i (VInsert k) {| gets := 0; then_remove := false |} with
+      match fs_entry rw df s i (VInsert k) {| gets := 0; then_remove := false |} with
       | (s', ObVacant _) => (s', ObTryInsert true)
+      | (s', _) => (s', ObTryInsert false)
+      end
+    | OTryInsertFail i p =>
+      match fs_entry rw df s i (VInsertFail p) {| gets := 0; then_remove := false |} with
+      | (s', ObVacantFailed) => (s', ObTryInsertErr)
       | (s', _) => (s', ObTryInsert false)
       end
     | ORemove i =>
       (* provided method: entry, Ok(None) on Vacant (dropped), remove on Occupied *)
-      match fs_entry rw s i VDrop {| gets := 0; then_remove := true |} with
+      match fs_entry rw df s i VDrop {| gets := 0; then_remove := true |} with
       | (s', ObOccupied _ (Some (KOk k))) => (s', ObRemove (Some (Some k)))
       | (s', ObOccupied _ _) => (s', ObRemove None)
       | (s', _) => (s', ObRemove (Some None))
@@ -168,11 +200,11 @@ Section KeyStore.
       ({| files := files s; canary := canary s || debug |}, ObReopen)
     end.
 
-  Fixpoint fs_run (rw debug : bool) (s : fs) (ops : list op) : fs * list obs :=
+  Fixpoint fs_run (rw df debug : bool) (s : fs) (ops : list op) : fs * list obs :=
     match ops with
     | [] => (s, [])
-    | o :: r => let '(s1, ob) := fs_step rw debug s o in
-                let '(s2, obs) := fs_run rw debug s1 r in (s2, ob :: obs)
+    | o :: r => let '(s1, ob) := fs_step rw df debug s o in
+                let '(s2, obs) := fs_run rw df debug s1 r in (s2, ob :: obs)
     end.
 
   (** A freshly opened store on an empty directory. *)
@@ -193,6 +225,7 @@ Section KeyStore.
       match v with
       | VInsert k => (create s i (enc k), ObVacant true)
       | VDrop => (s, ObVacant false)
+      | VInsertFail _ => (s, ObVacantFailed)      (* StoredKey::new fails before the map is touched *)
       end
     end.
 
@@ -206,6 +239,11 @@ Section KeyStore.
     | OTryInsert i k =>
       match mem_entry s i (VInsert k) {| gets := 0; then_remove := false |} with
       | (s', ObVacant _) => (s', ObTryInsert true)
+      | (s', _) => (s', ObTryInsert false)
+      end
+    | OTryInsertFail i p =>
+      match mem_entry s i (VInsertFail p) {| gets := 0; then_remove := false |} with
+      | (s', ObVacantFailed) => (s', ObTryInsertErr)
       | (s', _) => (s', ObTryInsert false)
       end
     | ORemove i =>
